@@ -125,14 +125,25 @@ def check_obs(obs, want_view, want_r):
     return None
 
 
-def make(arrangement):
-    def q(pa: str, qi: int, ci: int, si: int, hv: str):
-        text_ok(pa, hv)
-        assume(len(pa) == 1 and len(hv) <= 1)
-        assume(0 <= ci < len(COOKIES) and 0 <= qi < len(QUERIES))
-        ca = COOKIES[ci]                     # SimpleCookie's regexes on symbolic text cost ~100 paths per character
-        qa = QUERIES[qi]
-        pb = "y"
+def make(arrangement, wide=False):
+    inner = _make(arrangement)
+    if wide:      # thorough tier: B's path segment and A's query text symbolic as well
+        def q(pa: str, qa: str, pb: str, si: int, hv: str):
+            text_ok(pa, qa, pb, hv)
+            assume(len(pa) == 1 and len(pb) == 1 and len(qa) <= 1 and len(hv) <= 1)
+            return inner(pa, "q=" + qa, COOKIES[1], pb, si, hv)
+    else:
+        def q(pa: str, qi: int, ci: int, si: int, hv: str):
+            text_ok(pa, hv)
+            assume(len(pa) == 1 and len(hv) <= 1)
+            assume(0 <= ci < len(COOKIES) and 0 <= qi < len(QUERIES))
+            # (SimpleCookie's regexes on symbolic text cost ~100 paths per character: cookies come from a list)
+            return inner(pa, QUERIES[qi], COOKIES[ci], "y", si, hv)
+    return q
+
+
+def _make(arrangement):
+    def q(pa, qa, ca, pb, si, hv):
         ha, qb = "h" + ca, qa + "b"
         assume(0 <= si < len(STATUS))
         sA = STATUS[si]
@@ -181,11 +192,40 @@ def make(arrangement):
                     foreign_result.append(call(A, env_for("/a/" + pb, qb, "cb", "hb"))[0][0][0][:3])   # same app, other thread
                 finally:
                     stubs.SimThreads.cur = "T0"
-        elif arrangement == "alternating" or arrangement.startswith("default_outer"):
+        elif arrangement in ("alternating", "shared_errors_map") or arrangement.startswith("default_outer"):
             foreign = lambda A: None         # (default_outer*: set below, the default application is the outer party)
         else:
             raise ValueError(arrangement)
 
+        if arrangement == "shared_errors_map":
+            # two applications with the default configuration: DefaultConfig.errors_map (and the HTTPError objects in it)
+            # is shared by every application of the process; A answers a malformed body for a JSON client, then B for a browser
+            def body_app():
+                app = ombott.Ombott()
+                app.route("/up/:z", method="POST", callback=lambda z: app.request.body.read())
+                return app
+
+            def bad(seg, accept):
+                import io
+                env = env_for("/up/" + seg, "", "c", "h", method="POST")
+                env.update({"HTTP_TRANSFER_ENCODING": "chunked", "wsgi.input": io.BytesIO(b"zz\r\n")})
+                if accept:
+                    env["HTTP_ACCEPT"] = accept
+                return env
+            ref = call(body_app(), bad(pb, None))
+            ra = call(body_app(), bad(pa + qa + hv + "-longer", "application/json"))
+            rb = call(body_app(), bad(pb, None))
+            if rb != ref:
+                return "application B answered %r after application A served a malformed body; alone %r" % (rb, ref)
+            for got, body in (ra, rb):
+                st, hd = got[0]
+                for k, v in hd:
+                    if k == "Content-Length" and int(v) != len(body):
+                        return "Content-Length %s for %d body bytes (%s)" % (v, len(body), st)
+            if ref[0][0][0][:3] != "400":
+                return "malformed chunked body answered %r" % (ref[0],)
+            cover("ok")
+            return None
         if arrangement == "alternating":
             A = build_A(foreign, obs, sA, hv)
             B = build_B()
@@ -219,7 +259,7 @@ def make(arrangement):
 
 
 ARR = ["nested", "nested_json_error", "copy", "construct", "construct_request", "default_app", "default_outer",
-       "default_outer_json_error", "alternating", "threads"]
+       "default_outer_json_error", "alternating", "shared_errors_map", "threads"]
 
 
 def queries(tier):
@@ -230,6 +270,12 @@ def queries(tier):
                      "character): every ASCII letter or digit; A's cookie from %r, query string from %r, status written from %r; "
                      "B's request derived from A's" % (a, COOKIES, QUERIES, STATUS),
                      timeout=200 if tier == "quick" else 600, per_path_timeout=40, expect_cover=["ok"], family="arrangement"))
+    if tier == "thorough":
+        for a in ARR:
+            out.append(Q("wide/%s" % a, make(a, wide=True),
+                         "arrangement %r; path segments of A and B (1 character each), A's query value and the header value "
+                         "written by A's handler (<= 1 character): every ASCII letter or digit; status written from %r" % (a, STATUS),
+                         timeout=1000, per_path_timeout=60, expect_cover=["ok"], family="arrangement-wide"))
     return out
 
 
